@@ -30,7 +30,7 @@ func (*c19World) ID() string   { return "C19" }
 func (*c19World) Name() string { return "c19" }
 func (*c19World) Runs(tier string) int {
 	if tier == "thorough" {
-		return 300000
+		return 1000000
 	}
 	return 2*len(loadCorpus()) + 5000
 }
